@@ -850,11 +850,12 @@ impl<const N: usize> Not for BigInt<N> {
 /// assert_eq!(res, -2i64);
 /// ```
 pub fn signed_mod_reduction(n: u64, modulus: u64) -> i64 {
-    let t = (n % modulus) as i64;
-    if t as u64 >= (modulus / 2) {
-        t - (modulus as i64)
+    let t = n % modulus;
+    if t >= (modulus / 2) {
+        // computed on the unsigned values: `modulus as i64` is negative for moduli >= 2^63
+        t.wrapping_sub(modulus) as i64
     } else {
-        t
+        t as i64
     }
 }
 
